@@ -22,8 +22,9 @@ static mut CRASH_PATH: *const libc::c_char = std::ptr::null();
 
 /// pseudo signal number for "the run did not terminate"
 pub const SIG_HANG: i32 = 1000;
-/// a single run (one trace, all its enumerated cases) may take this long before it counts as a hang
-pub const HANG_LIMIT_MS: u64 = 60_000;
+/// a single run (one trace, all its enumerated cases) may burn this much CPU time before it counts
+/// as a hang (legitimate runs: milliseconds, the heaviest about two seconds)
+pub const HANG_LIMIT_MS: u64 = 120_000;
 
 const NSLOT: usize = 64;
 #[allow(clippy::declare_interior_mutable_const)]
@@ -38,10 +39,18 @@ thread_local! {
     static MY_SLOT: Cell<usize> = const { Cell::new(usize::MAX) };
 }
 
-fn now_ms() -> u64 {
-    static T0: std::sync::OnceLock<Instant> = std::sync::OnceLock::new();
-    T0.get_or_init(Instant::now).elapsed().as_millis() as u64
+/// CPU time consumed so far by the thread owning `clock` (milliseconds). Deadlines are in CPU
+/// time, never wall-clock: on a loaded machine a legitimate run can take arbitrarily long on the
+/// wall, but it cannot burn a minute of CPU.
+fn cpu_ms(clock: libc::clockid_t) -> u64 {
+    let mut ts: libc::timespec = unsafe { std::mem::zeroed() };
+    if unsafe { libc::clock_gettime(clock, &mut ts) } != 0 {
+        return 0;
+    }
+    ts.tv_sec as u64 * 1000 + ts.tv_nsec as u64 / 1_000_000
 }
+
+static SLOT_CLOCK: [AtomicU64; NSLOT] = [A0; NSLOT];
 
 fn my_slot() -> usize {
     MY_SLOT.with(|s| {
@@ -56,7 +65,13 @@ fn my_slot() -> usize {
 pub fn set_run(run: u64) {
     CUR_RUN.with(|c| c.set(run));
     let k = my_slot();
-    SLOT_SINCE[k].store(now_ms(), Ordering::Relaxed);
+    if SLOT_CLOCK[k].load(Ordering::Relaxed) == u64::MAX {
+        let mut cid: libc::clockid_t = 0;
+        if unsafe { libc::pthread_getcpuclockid(libc::pthread_self(), &mut cid) } == 0 {
+            SLOT_CLOCK[k].store(cid as i64 as u64, Ordering::Relaxed);
+        }
+    }
+    SLOT_SINCE[k].store(cpu_ms(libc::CLOCK_THREAD_CPUTIME_ID), Ordering::Relaxed);
     SLOT_RUN[k].store(run, Ordering::SeqCst);
 }
 /// which enumerated case / injected fault is in flight (scenario-specific meaning)
@@ -152,14 +167,23 @@ pub fn start_watchdog() {
     }
     std::thread::spawn(|| loop {
         std::thread::sleep(std::time::Duration::from_millis(500));
-        let now = now_ms();
         for k in 0..NSLOT {
             let run = SLOT_RUN[k].load(Ordering::SeqCst);
             if run == u64::MAX {
                 continue;
             }
+            let clock = SLOT_CLOCK[k].load(Ordering::Relaxed);
+            if clock == u64::MAX {
+                continue;
+            }
             let since = SLOT_SINCE[k].load(Ordering::Relaxed);
-            if since != u64::MAX && now.saturating_sub(since) > HANG_LIMIT_MS {
+            let now = cpu_ms(clock as i64 as libc::clockid_t);
+            // re-check that the same run is still in flight (the slot may have moved on)
+            if since != u64::MAX
+                && now.saturating_sub(since) > HANG_LIMIT_MS
+                && SLOT_RUN[k].load(Ordering::SeqCst) == run
+                && SLOT_SINCE[k].load(Ordering::Relaxed) == since
+            {
                 let mut buf = [0u8; 160];
                 let mut pos = 0;
                 put_num(&mut buf, &mut pos, SIG_HANG as u64);
@@ -226,12 +250,23 @@ pub fn spawn_child_limited(args: &[String], crash_file: &str, quiet: bool, limit
         std::process::exit(2)
     });
     let t0 = Instant::now();
+    let child_cpu = |pid: u32| -> std::time::Duration {
+        // utime + stime of the child, from /proc (clock ticks)
+        let txt = std::fs::read_to_string(format!("/proc/{pid}/stat")).unwrap_or_default();
+        let after = txt.rsplit(')').next().unwrap_or("");
+        let f: Vec<&str> = after.split_whitespace().collect();
+        let ticks = f.get(11).and_then(|x| x.parse::<u64>().ok()).unwrap_or(0)
+            + f.get(12).and_then(|x| x.parse::<u64>().ok()).unwrap_or(0);
+        let hz = unsafe { libc::sysconf(libc::_SC_CLK_TCK) }.max(1) as u64;
+        std::time::Duration::from_millis(ticks * 1000 / hz)
+    };
     let st = loop {
         match ch.try_wait() {
             Ok(Some(st)) => break st,
             Ok(None) => {
                 if let Some(l) = limit {
-                    if t0.elapsed() > l {
+                    // the limit is CPU time of the child (wall-clock only as a 40x backstop)
+                    if child_cpu(ch.id()) > l || t0.elapsed() > l * 40 {
                         let _ = ch.kill();
                         let _ = ch.wait();
                         let _ = std::fs::remove_file(crash_file);
@@ -347,7 +382,7 @@ pub fn handle_crash<S: Scenario>(cfg: &RunCfg, signal: i32, run: u64, ctx: [u64;
     let path = format!("{}/{}-{}-{}.json", cfg.replay_dir, S::ID, cfg.seed, run);
     let detail = if sig == SIG_HANG {
         format!(
-            "executing this trace did not terminate within {} s: the code under test loops",
+            "executing this trace burnt {} s of CPU time without terminating: the code under test loops",
             HANG_LIMIT_MS / 4000
         )
     } else {
